@@ -189,7 +189,11 @@ def project_response(resp, spec):
             extra = 0
             if opname == 'GET_ATTRIBUTE_LIST':
                 extra = 1 if 'Sensitive' in (p.get('attribute_names') or []) else 0
-            out.append((opc, 0, int(uid) if uid is not None else 0, extra))
+            try:
+                uid = int(uid) if uid is not None else 0
+            except (TypeError, ValueError):
+                uid = -1                 # e.g. the string 'None': an identifier that names no object
+            out.append((opc, 0, uid, extra))
         else:
             out.append((opc, CODES.get(it['reason'], 9), 0, 0))
     return out
@@ -489,10 +493,8 @@ def run(ctx):
         'Instrumentation attached from outside: instance class swapped for a tracing subclass; _verify_credential/_set_protocol_version '
         'wrapped on the instance for the forced schedules.']
     ctx.prove('props/C10.v')
-    for p in static_checks(ctx):
-        ctx.violation({'class': 'unsynchronized-entry-point'}, {'finding': p, 'file': 'kmip/services/server/engine.py'}, p)
-    run_probes(ctx)
-    n_runs = 40 if quick else 300
+    run_probes(ctx)          # first: a hit here is a concrete schedule (goes into the replay file)
+    n_runs = 60 if quick else 400
     cases, meta = [], []
     for k in range(n_runs):
         rng = ctx.subrng('run/%d' % k)
@@ -502,6 +504,8 @@ def run(ctx):
         if c is not None:
             cases.append(c)
             meta.append(m)
+    for p in static_checks(ctx):
+        ctx.violation({'class': 'unsynchronized-entry-point'}, {'finding': p, 'file': 'kmip/services/server/engine.py'}, p)
     bad = ctx.run_cases('runs', HEADER, cases, 'check_ccase', shard=25,
                         what='responses and final store of real concurrent runs vs seq_run of Conc/Interleave.v in the recorded order of entry')
     for i in bad[:10]:
